@@ -285,26 +285,22 @@ theorem submit_announces (b : Broker) (orc : Oracle) (o : Ord) (inAuction : Bool
 theorem cancel_final_noop (b : Broker) (o : Ord) (h : o.isFinal = true) : b.cancel o = (b, []) := by
   simp only [Broker.cancel, h, if_true]
 
-/-- `cancel_order` of a live order announces PENDING_CANCEL then CANCELLATION_PASS and removes it from the regular book -/
+/-- `cancel_order` of a live order announces PENDING_CANCEL then CANCELLATION_PASS and removes it from BOTH books (the auction book
+too: repair of finding F4, where a cancelled auction order was matched again under `next_bar`) -/
 theorem cancel_live (b : Broker) (o : Ord) (h : o.isFinal = false) :
     (b.cancel o).2 = [OEvent.pendingCancel o.id, OEvent.cancellationPass o.id] ∧
-    ∀ x ∈ (b.cancel o).1.openOrders, x.id ≠ o.id := by
+    (∀ x ∈ (b.cancel o).1.openOrders, x.id ≠ o.id) ∧ (∀ x ∈ (b.cancel o).1.auctionOrders, x.id ≠ o.id) := by
   unfold Broker.cancel
   rw [h]
-  refine ⟨rfl, ?_⟩
-  intro x hx
-  simp only [Bool.false_eq_true, if_false] at hx
-  rw [List.mem_filter] at hx
-  simpa using hx.2
-
-/-- … but as coded it leaves a live order in the AUCTION book (finding F4: under `next_bar` matching the next match
-round announces the cancellation a second time and the reserve is released twice) -/
-theorem cancel_leaves_auction_book (b : Broker) (o : Ord) (hmem : o ∈ b.auctionOrders) (hnf : o.isFinal = false) :
-    ∃ x ∈ (b.cancel o).1.auctionOrders, x.id = o.id := by
-  simp only [Broker.cancel, hnf, Bool.false_eq_true, if_false]
-  refine ⟨o.markCancelled, ?_, markCancelled_id o⟩
-  rw [List.mem_map]
-  exact ⟨o, hmem, by simp⟩
+  refine ⟨rfl, ?_, ?_⟩
+  · intro x hx
+    simp only [Bool.false_eq_true, if_false] at hx
+    rw [List.mem_filter] at hx
+    simpa using hx.2
+  · intro x hx
+    simp only [Bool.false_eq_true, if_false] at hx
+    rw [List.mem_filter] at hx
+    simpa using hx.2
 
 /-- non-vacuity: partial fills 300 @ 10 and 700 @ 10.5 of an order for 1000 -/
 example : let o : Ord := ⟨1, 1, true, false, 0, .open_, 1000, 0, .active, 0, 0, 10, 10008⟩
